@@ -408,8 +408,13 @@ Proof.
     eapply ep_fields_inj; eauto.
 Qed.
 
+Lemma wf_inst_payload i t : wf_instb i = true -> i_payload i = Some t -> wf_tplb t = true.
+Proof.
+  unfold wf_instb. intros W P. apply andb_true_iff in W as [_ W]. now rewrite P in W.
+Qed.
+
 Lemma key_fields_length fx H ho vo i q f :
-  key_fields fx H ho vo i q = Some f ->
+  key_fields0 fx H ho vo i q = Some f ->
   match i_kind i with
   | KIntro => length f = 4
   | KGen => length f = 3
@@ -417,7 +422,7 @@ Lemma key_fields_length fx H ho vo i q f :
   | KCtx => exists n, length f = 7 + 2 * n
   end.
 Proof.
-  unfold key_fields. destruct (i_kind i).
+  unfold key_fields0. destruct (i_kind i).
   - intro E. injection E as <-. reflexivity.
   - intro E. injection E as <-. reflexivity.
   - destruct (rendered i q) as [[vals payload]|]; [|discriminate]. intro E. injection E as <-.
@@ -427,6 +432,72 @@ Proof.
 Qed.
 
 Local Opaque le64.
+
+(* ------------------------------------------------------------------ the fields fixes/C11-F6.diff appends *)
+
+Lemma key_fields_split fx H ho vo i q f :
+  key_fields fx H ho vo i q = Some f ->
+  exists f0, key_fields0 fx H ho vo i q = Some f0 /\ f = f0 ++ extra_fields fx H i q.
+Proof.
+  unfold key_fields. destruct (key_fields0 fx H ho vo i q) as [f0|]; [|discriminate].
+  simpl. intro E. injection E as <-. eauto.
+Qed.
+
+Lemma app_eq_len_head {A} : forall (a b x y : list A),
+  length a = length b -> a ++ x = b ++ y -> a = b /\ x = y.
+Proof.
+  induction a as [|c a IH]; intros [|d b] x y L E; simpl in *; try discriminate; auto.
+  injection E as -> E. injection L as L. destruct (IH _ _ _ L E) as [-> ->]. auto.
+Qed.
+
+Lemma app_eq_len_tail {A} (a b x y : list A) :
+  length x = length y -> a ++ x = b ++ y -> a = b /\ x = y.
+Proof.
+  intros L E. apply app_eq_len_head; auto.
+  apply (f_equal (@length A)) in E. rewrite !app_length in E. lia.
+Qed.
+
+Lemma extra_length fx H i q :
+  length (extra_fields fx H i q) =
+  if fx6 fx then
+    match i_kind i with
+    | KCtx => 2
+    | KGen => match i_payload i with Some _ => 3 | None => 2 end
+    | _ => 0
+    end
+  else 0.
+Proof.
+  unfold extra_fields. destruct (fx6 fx); [|reflexivity].
+  destruct (i_kind i); try reflexivity. destruct (i_payload i); reflexivity.
+Qed.
+
+(** equal keys fields: the old parts are equal and the appended parts are equal *)
+Lemma key_split fx H a b f0a f0b :
+  key_fields0 fx H (st_ho a) (st_vo a) (st_inst a) (st_req a) = Some f0a ->
+  key_fields0 fx H (st_ho b) (st_vo b) (st_inst b) (st_req b) = Some f0b ->
+  f0a ++ extra_fields fx H (st_inst a) (st_req a) = f0b ++ extra_fields fx H (st_inst b) (st_req b) ->
+  f0a = f0b /\ extra_fields fx H (st_inst a) (st_req a) = extra_fields fx H (st_inst b) (st_req b).
+Proof.
+  intros Fa Fb E.
+  destruct (Nat.eq_dec (length (extra_fields fx H (st_inst a) (st_req a)))
+                       (length (extra_fields fx H (st_inst b) (st_req b)))) as [L|L].
+  { now apply app_eq_len_tail. }
+  exfalso.
+  pose proof (key_fields_length _ _ _ _ _ _ _ Fa) as La.
+  pose proof (key_fields_length _ _ _ _ _ _ _ Fb) as Lb.
+  pose proof (f_equal (@length fld) E) as LE. rewrite !app_length in LE.
+  rewrite !extra_length in *.
+  destruct (fx6 fx); [|lia].
+  unfold key_fields0 in Fa, Fb.
+  destruct (i_kind (st_inst a)) eqn:Ka; destruct (i_kind (st_inst b)) eqn:Kb;
+    repeat match goal with X : exists _, _ |- _ => destruct X end;
+    try (destruct (i_payload (st_inst a)); destruct (i_payload (st_inst b)); lia).
+  - (* generic authenticator with payload against a remote authorizer without values *)
+    destruct (rendered (st_inst b) (st_req b)) as [[vb pb]|]; [|discriminate].
+    injection Fa as <-. injection Fb as <-. simpl in E. injection E. discriminate.
+  - destruct (rendered (st_inst a) (st_req a)) as [[va pa]|]; [|discriminate].
+    injection Fa as <-. injection Fb as <-. simpl in E. injection E. discriminate.
+Qed.
 
 (** Key injectivity: for a collision-free SHA-256, two look-ups of well-formed
     instances that use the same key have the same key components, unless their
@@ -441,16 +512,21 @@ Proof.
   intros fx H a b k Hinj Wa Wb Oa Ob Ka Kb G.
   destruct (key_of_some fx H a k Ka) as (Ea & fa & Fa & Ha).
   destruct (key_of_some fx H b k Kb) as (Eb & fb & Fb & Hb).
-  unfold p_F4, both in G. rewrite Ea, Eb in G. simpl in G.
+  unfold p_F4 in G. apply orb_false_iff in G as [G _].
+  unfold p_F4k, both in G. rewrite Ea, Eb in G. simpl in G.
   apply orb_false_iff in G as [Gk Ge].
   unfold opt_fields in Gk. rewrite Ea, Eb, Fa, Fb in Gk.
   assert (Ef : fa = fb).
   { apply collide_inj; auto. apply Hinj. apply hex_inj. congruence. }
   subst fb.
+  destruct (key_fields_split _ _ _ _ _ _ _ Fa) as (f0a & F0a & Efa).
+  destruct (key_fields_split _ _ _ _ _ _ _ Fb) as (f0b & F0b & Efb).
+  destruct (key_split fx H a b f0a f0b F0a F0b) as [E0 _]; [congruence|]. subst f0b.
+  clear Fa Fb Efa Efb Gk Ha Hb fa. rename F0a into Fa. rename F0b into Fb. rename f0a into fa.
   pose proof (key_fields_length _ _ _ _ _ _ _ Fa) as La.
   pose proof (key_fields_length _ _ _ _ _ _ _ Fb) as Lb.
   pose proof (ep_hash_inj fx H a b Hinj Wa Wb Oa Ob Ge) as Eep.
-  unfold components. unfold key_fields in Fa, Fb.
+  unfold components. unfold key_fields0 in Fa, Fb.
   destruct Oa as [_ Pva]. destruct Ob as [_ Pvb].
   destruct (i_kind (st_inst a)) eqn:Kia; destruct (i_kind (st_inst b)) eqn:Kib;
     try (exfalso; repeat match goal with X : exists _, _ |- _ => destruct X end; lia).
@@ -723,17 +799,64 @@ Definition wf_history (h : list step) : Prop :=
   (forall s, In s h -> wf_instb (st_inst s) = true /\ orders_valid s) /\
   (forall a b, In a h -> In b h -> json_faithful a b).
 
+(** with fixes/C11-F6.diff, two look-ups that share a key forward the same header and cookie values
+    (and, for the generic authenticator, have the same payload template): the guard of C11-F6 cannot fire *)
+Lemma fx6_no_F6 fx H a b k :
+  fx6 fx = true -> injective H ->
+  wf_instb (st_inst a) = true -> wf_instb (st_inst b) = true -> orders_valid a -> orders_valid b ->
+  key_of fx H a = Some k -> key_of fx H b = Some k ->
+  p_F4 fx H a b = false -> p_F6 a b = false.
+Proof.
+  intros F6 Hinj Wa Wb Oa Ob Ka Kb G.
+  destruct (key_injective fx H a b k Hinj Wa Wb Oa Ob Ka Kb G) as (c & Ca & Cb).
+  pose proof (components_kind a c Ca) as Kia. pose proof (components_kind b c Cb) as Kib.
+  assert (Kab : i_kind (st_inst b) = i_kind (st_inst a)) by congruence. clear Kia Kib Ca Cb c.
+  destruct (key_of_some fx H a k Ka) as (Ea & fa & Fa & Ha).
+  destruct (key_of_some fx H b k Kb) as (Eb & fb & Fb & Hb).
+  unfold p_F4 in G. apply orb_false_iff in G as [Gk Gf].
+  unfold p_F4k, both in Gk. rewrite Ea, Eb in Gk. simpl in Gk. apply orb_false_iff in Gk as [Gk _].
+  unfold opt_fields in Gk. rewrite Ea, Eb, Fa, Fb in Gk.
+  assert (Ef : fa = fb).
+  { apply collide_inj; auto. apply Hinj. apply hex_inj. congruence. }
+  subst fb.
+  destruct (key_fields_split _ _ _ _ _ _ _ Fa) as (f0a & F0a & Efa).
+  destruct (key_fields_split _ _ _ _ _ _ _ Fb) as (f0b & F0b & Efb).
+  destruct (key_split fx H a b f0a f0b F0a F0b) as [_ Ex]; [congruence|].
+  unfold p_F6. destruct (both forwards a b) eqn:BF; [|reflexivity]. simpl. apply negb_false_iff.
+  unfold p_F4_fwd in Gf. rewrite BF, F6 in Gf. simpl in Gf. apply orb_false_iff in Gf as [Gh Gc].
+  unfold extra_fields in Ex. rewrite F6, Kab in Ex.
+  assert (FW : fwd_fields fx H (st_inst a) (st_req a) = fwd_fields fx H (st_inst b) (st_req b) -> fwd_eqb a b = true).
+  { unfold fwd_fields, digest. intro E. injection E as Eh Ec. apply Hinj in Eh, Ec.
+    apply (collide_inj _ _ Gh) in Eh. apply (collide_inj _ _ Gc) in Ec. apply kv_fields_inj in Eh, Ec.
+    unfold fwd_eqb, fwd. rewrite Eh, Ec, !alist_eqb_refl. reflexivity. }
+  unfold both, forwards in BF. rewrite Kab in BF.
+  destruct (i_kind (st_inst a)) eqn:Kk; try discriminate BF.
+  - (* generic authenticator *)
+    destruct (i_payload (st_inst a)) as [ta|] eqn:Pa; destruct (i_payload (st_inst b)) as [tb|] eqn:Pb.
+    + destruct (app_eq_len_tail _ _ _ _ eq_refl Ex) as [Ew Ep]. rewrite (FW Ew). simpl.
+      injection Ep as Ep. unfold digest in Ep. apply Hinj in Ep. rewrite !cat_single in Ep.
+      apply tpl_text_inj in Ep; [| eapply wf_inst_payload; eauto | eapply wf_inst_payload; eauto].
+      subst tb. apply tpl_eqb_refl.
+    + apply (f_equal (@length fld)) in Ex. discriminate Ex.
+    + apply (f_equal (@length fld)) in Ex. discriminate Ex.
+    + rewrite !app_nil_r in Ex. rewrite (FW Ex). reflexivity.
+  - (* generic contextualizer *)
+    rewrite (FW Ex). reflexivity.
+Qed.
+
 Lemma pair_guards_compatible fx H w a b k r :
   injective H ->
   wf_instb (st_inst a) = true -> wf_instb (st_inst b) = true -> orders_valid a -> orders_valid b ->
   json_faithful a b ->
   (fx2 fx = true \/ p_F2 a b = false) -> (fx3 fx = true \/ p_F3 a b = false) ->
   (fx10 fx = true \/ p_F10 a b = false) ->
-  p_F4 fx H a b = false -> p_F6 a b = false -> p_F7 a b = false ->
+  p_F4 fx H a b = false -> (fx6 fx = true \/ p_F6 a b = false) -> p_F7 a b = false ->
   key_of fx H a = Some k -> key_of fx H b = Some k -> fresh_of w a = OAllow r ->
   recheck fx (st_inst b) r = fresh_of w b.
 Proof.
-  intros Hinj Wa Wb Oa Ob J G2 G3 G10 G4 G6 G7 Ka Kb Fa.
+  intros Hinj Wa Wb Oa Ob J G2 G3 G10 G4 G6' G7 Ka Kb Fa.
+  assert (G6 : p_F6 a b = false).
+  { destruct G6' as [F6|G6]; auto. eapply fx6_no_F6; eauto. }
   destruct (key_injective fx H a b k Hinj Wa Wb Oa Ob Ka Kb G4) as (c & Ca & Cb).
   destruct (key_of_some fx H a k Ka) as (Ea & _). destruct (key_of_some fx H b k Kb) as (Eb & _).
   pose proof (components_determine_answer w a b c Ca Cb Ea Eb J G6 G7) as EA.
@@ -770,7 +893,7 @@ Theorem cache_transparent : forall fx H w h,
   injective H -> wf_history h ->
   (fx2 fx = true \/ g_F2 fx H h = false) -> (fx3 fx = true \/ g_F3 fx H h = false) ->
   (fx10 fx = true \/ g_F10 fx H h = false) ->
-  g_F4 fx H h = false -> g_F6 fx H h = false -> g_F7 fx H h = false ->
+  g_F4 fx H h = false -> (fx6 fx = true \/ g_F6 fx H h = false) -> g_F7 fx H h = false ->
   map sr_out (run_cached fx H w [] h) = map fst (run_fresh w h).
 Proof.
   intros fx H w h Hinj [Wf Js] G2 G3 G10 G4 G6 G7. apply cache_transparent_steps.
@@ -786,9 +909,14 @@ Proof.
       rewrite P. now rewrite andb_false_r. }
   destruct (exists_pair_false _ h a b G4 Ia Ib) as [->|[P4 _]]; [now apply Self|].
   pose proof (same_key_intro fx H a b k Ka Kb) as SK.
-  destruct (exists_pair_false _ h a b G6 Ia Ib) as [->|[P6 _]]; [now apply Self|].
   destruct (exists_pair_false _ h a b G7 Ia Ib) as [->|[P7 _]]; [now apply Self|].
-  unfold keyed in P6, P7. rewrite SK in P6, P7. simpl in P6, P7.
+  unfold keyed in P7. rewrite SK in P7. simpl in P7.
+  assert (P6 : fx6 fx = true \/ p_F6 a b = false).
+  { destruct G6 as [G6|G6]; auto. destruct (exists_pair_false _ h a b G6 Ia Ib) as [E|[P6 _]].
+    - subst b. right. unfold p_F6, fwd_eqb. rewrite !alist_eqb_refl. simpl.
+      destruct (i_kind (st_inst a)); rewrite ?andb_false_r; auto.
+      rewrite (option_eqb_refl _ tpl_eqb_refl). now rewrite andb_false_r.
+    - right. unfold keyed in P6. now rewrite SK in P6. }
   assert (P2 : fx2 fx = true \/ p_F2 a b = false).
   { destruct G2 as [G2|G2]; auto. destruct (exists_pair_false _ h a b G2 Ia Ib) as [->|[P2 _]].
     - right. unfold p_F2. now rewrite !strs_eqb_refl', andb_false_r.
@@ -809,7 +937,14 @@ Corollary cache_transparent_repaired : forall H w h,
   injective H -> wf_history h ->
   g_F4 fx_all H h = false -> g_F6 fx_all H h = false -> g_F7 fx_all H h = false ->
   map sr_out (run_cached fx_all H w [] h) = map fst (run_fresh w h).
-Proof. intros H w h Hi W. apply cache_transparent; auto. Qed.
+Proof. intros H w h Hi W G4 G6 G7. apply cache_transparent; auto. Qed.
+
+(** … and with fixes/C11-F6.diff: no guard of C11-F6 any more *)
+Corollary cache_transparent_repaired6 : forall H w h,
+  injective H -> wf_history h ->
+  g_F4 fx_all6 H h = false -> g_F7 fx_all6 H h = false ->
+  map sr_out (run_cached fx_all6 H w [] h) = map fst (run_fresh w h).
+Proof. intros H w h Hi W G4 G7. apply cache_transparent; auto. Qed.
 
 (* ------------------------------------------------------------------ the hypotheses are satisfiable *)
 
